@@ -36,7 +36,7 @@ def run(ctx):
     table = model.call("run_kind_table", []) if model else None
     profile = R.make_profile(ctx.scratch)
     stats = C.new_stats()
-    nvec = 6 if ctx.tier == "quick" else 50
+    nvec = 6 if ctx.tier == "quick" else 30
     C.sweep(ctx, model, table, select, nvec, profile, stats, judge_answers=True)
     if model:
         model.close()
